@@ -18,8 +18,110 @@ import (
 	"golang.org/x/tools/go/ssa"
 )
 
+//   J4  reinterpreting a magnitude as signed: intN(x) of a uintN value of the same width (N ≤ 32) keeps the bits, so the
+//       upper half of the range turns negative. That is the intended reading of a wrap-around *difference* (int16(a-b)),
+//       and wrong for anything else that can reach 2^(N-1) — a window size of 32768, a sequence number, a timestamp.
+//       Operands that are differences, constants, or provably below 2^(N-1) (masked, shifted right, a remainder by or a
+//       widening of something smaller) are accepted.
+//   K4  cross-append: `a.f = append(a.g, x)` with g ≠ f builds f's new contents on g's backing array: the history kept
+//       in f is replaced by g's, and the two fields then overwrite each other's elements. The base of an append whose
+//       result is stored to a field of long-lived state must be that same field (or fresh / local memory).
+
+//   E4  constant-step trim: a history field cut by a fixed number of elements (`h = h[1:]` when it is over its limit)
+//       stays bounded only if at most that many elements were appended since the last cut. An append to the field that
+//       can repeat (sits on a cycle of the control-flow graph) without passing the cut — the cut moved out of the loop
+//       that appends — lets the history grow by the difference on every call. A cut relative to the length
+//       (`h[len(h)-max:]`), or one that itself repeats until the limit holds, is not subject to this.
+
 func init() {
-	registerEngine("LINT", []string{"J3", "K3"}, runEngineLint)
+	registerEngine("LINT", []string{"J3", "K3", "J4", "K4", "E4"}, runEngineLint)
+}
+
+// cycleAvoiding: block b lies on a CFG cycle that passes none of the blocks in avoid.
+func cycleAvoiding(b *ssa.BasicBlock, avoid map[*ssa.BasicBlock]bool) bool {
+	seen := map[*ssa.BasicBlock]bool{}
+	work := append([]*ssa.BasicBlock{}, b.Succs...)
+	for len(work) > 0 {
+		x := work[len(work)-1]
+		work = work[:len(work)-1]
+		if x == b {
+			return true
+		}
+		if seen[x] || avoid[x] {
+			continue
+		}
+		seen[x] = true
+		work = append(work, x.Succs...)
+	}
+	return false
+}
+
+// belowSignBit: v (an unsigned value of bits width) provably stays below 2^(bits-1).
+func belowSignBit(p *Prog, v ssa.Value, bits int, d int) bool {
+	if d > 6 {
+		return false
+	}
+	v = p.origin(v)
+	limit := int64(1) << uint(bits-1)
+	switch x := v.(type) {
+	case *ssa.Const:
+		c, ok := constInt(x)
+		return ok && c >= 0 && c < limit
+	case *ssa.Convert:
+		if b, ok := x.X.Type().Underlying().(*types.Basic); ok && b.Info()&types.IsInteger != 0 && intBits(b) < bits {
+			return true
+		}
+		return belowSignBit(p, x.X, bits, d+1)
+	case *ssa.BinOp:
+		switch x.Op {
+		case token.AND:
+			for _, s := range []ssa.Value{x.X, x.Y} {
+				if c, ok := constInt(s); ok && c >= 0 && c < limit {
+					return true
+				}
+			}
+		case token.REM:
+			if c, ok := constInt(x.Y); ok && c > 0 && c <= limit {
+				return true
+			}
+		case token.SHR:
+			if c, ok := constInt(x.Y); ok && c >= 1 {
+				return true
+			}
+		case token.QUO:
+			if c, ok := constInt(x.Y); ok && c >= 2 {
+				return true
+			}
+		}
+	case *ssa.Phi:
+		for _, e := range x.Edges {
+			if !belowSignBit(p, e, bits, d+1) {
+				return false
+			}
+		}
+		return len(x.Edges) > 0
+	case *ssa.Call:
+		if b := builtinName(&x.Call); b == "min" {
+			for _, a := range x.Call.Args {
+				if belowSignBit(p, a, bits, d+1) {
+					return true
+				}
+			}
+		}
+	}
+	return false
+}
+
+func intBits(b *types.Basic) int {
+	switch b.Kind() {
+	case types.Int8, types.Uint8:
+		return 8
+	case types.Int16, types.Uint16:
+		return 16
+	case types.Int32, types.Uint32:
+		return 32
+	}
+	return 64
 }
 
 func pkgRelOf(f *ssa.Function) string {
@@ -34,6 +136,9 @@ func pkgRelOf(f *ssa.Function) string {
 func runEngineLint(p *Prog, o *obls) {
 	remCount := map[string]int{}
 	loopCount := map[string]int{}
+	convCount := map[string]int{}
+	trimCount := map[string]int{}
+	appCount := map[string]int{}
 	pkgs := map[string]bool{}
 	for _, fn := range p.Funcs {
 		pk := pkgRelOf(fn)
@@ -55,6 +160,171 @@ func runEngineLint(p *Prog, o *obls) {
 				o.ok("J3", funcKey(fn)+":rem", p.instrPos(bo), fmt.Sprintf("remainder by the constant %d, not an off-by-one wrap modulus", c))
 			}
 		})
+		// ---- J4
+		instrsOf(fn, func(in ssa.Instruction) {
+			cv, ok := in.(*ssa.Convert)
+			if !ok {
+				return
+			}
+			from, ok1 := cv.X.Type().Underlying().(*types.Basic)
+			to, ok2 := cv.Type().Underlying().(*types.Basic)
+			if !ok1 || !ok2 || from.Info()&types.IsUnsigned == 0 || to.Info()&types.IsInteger == 0 || to.Info()&types.IsUnsigned != 0 {
+				return
+			}
+			bits := intBits(from)
+			if bits != intBits(to) || bits > 32 {
+				return
+			}
+			convCount[pk]++
+			key := fmt.Sprintf("%s:signed(%s)", funcKey(fn), shortExpr(p, cv.X))
+			if bo, isDiff := p.origin(cv.X).(*ssa.BinOp); isDiff && bo.Op == token.SUB {
+				o.ok("J4", key, p.instrPos(cv), "signed reading of a wrap-around difference")
+				return
+			}
+			if belowSignBit(p, cv.X, bits, 0) {
+				o.ok("J4", key, p.instrPos(cv), fmt.Sprintf("operand provably below 2^%d", bits-1))
+				return
+			}
+			o.bad("J4", key, p.instrPos(cv), fmt.Sprintf("%s(%s) reinterprets an unsigned %d-bit magnitude (not a difference, not provably below 2^%d) as signed: values from %d up turn negative — the largest admitted window size or any sequence number in the upper half of the range then fails every ordered comparison", to.Name(), shortExpr(p, cv.X), bits, bits-1, int64(1)<<uint(bits-1)))
+		})
+		// ---- K4
+		instrsOf(fn, func(in ssa.Instruction) {
+			st, ok := in.(*ssa.Store)
+			if !ok {
+				return
+			}
+			dst, ok := st.Addr.(*ssa.FieldAddr)
+			if !ok {
+				return
+			}
+			if _, isSlice := deref(dst.Type()).Underlying().(*types.Slice); !isSlice {
+				return
+			}
+			bases := appendBases(p, st.Val, 0, map[ssa.Value]bool{})
+			if len(bases) == 0 {
+				return
+			}
+			appCount[pk]++
+			dk := p.pureKey(dst)
+			var wrong []string
+			for _, b := range bases {
+				u, ok := p.origin(b).(*ssa.UnOp)
+				if !ok || u.Op != token.MUL {
+					continue // a local, a parameter, a fresh slice
+				}
+				src, ok := u.X.(*ssa.FieldAddr)
+				if !ok || p.pureKey(src) == dk {
+					continue
+				}
+				if _, isSlice := deref(src.Type()).Underlying().(*types.Slice); !isSlice {
+					continue
+				}
+				// a different field of long-lived state (same object or another one)
+				// a field of a different, local object (a freshly built struct) is local memory; two fields of the same
+				// object — also of a by-value copy of long-lived state, whose slices still share their arrays — are not
+				if al, isAlloc := cellAddr(addrRoot(src)).(*ssa.Alloc); isAlloc && cellAddr(addrRoot(dst)) != ssa.Value(al) {
+					continue
+				}
+				wrong = append(wrong, fmt.Sprintf("%s (read at %s)", fieldKeyAddr(src), p.instrPos(u)))
+			}
+			key := fmt.Sprintf("%s:append→%s", funcKey(fn), fieldKeyAddr(dst))
+			if len(wrong) > 0 {
+				o.bad("K4", key, p.instrPos(st), fmt.Sprintf("the value stored to %s is an append to %s: the field's own history is replaced by the other field's, and both fields now grow into one backing array", fieldKeyAddr(dst), strings.Join(dedupe(wrong), ", ")))
+			} else {
+				o.ok("K4", key, p.instrPos(st), "the append stored to the field is based on that field (or on local memory)")
+			}
+		})
+		// ---- E4
+		{
+			type trim struct {
+				st *ssa.Store
+				c  int64
+			}
+			trims := map[string][]trim{}
+			appends := map[string][]*ssa.Store{}
+			instrsOf(fn, func(in ssa.Instruction) {
+				st, ok := in.(*ssa.Store)
+				if !ok {
+					return
+				}
+				dst, ok := st.Addr.(*ssa.FieldAddr)
+				if !ok {
+					return
+				}
+				if _, isSlice := deref(dst.Type()).Underlying().(*types.Slice); !isSlice {
+					return
+				}
+				dk := p.pureKey(dst)
+				selfLoad := func(v ssa.Value) bool {
+					u, ok := p.origin(v).(*ssa.UnOp)
+					if !ok || u.Op != token.MUL {
+						return false
+					}
+					fa, ok := u.X.(*ssa.FieldAddr)
+					return ok && p.pureKey(fa) == dk
+				}
+				if sl, ok := p.origin(st.Val).(*ssa.Slice); ok && sl.High == nil && sl.Max == nil && sl.Low != nil && selfLoad(sl.X) {
+					if c, ok := constInt(sl.Low); ok && c >= 1 {
+						trims[dk] = append(trims[dk], trim{st, c})
+					}
+					return
+				}
+				for _, b := range appendBases(p, st.Val, 0, map[ssa.Value]bool{}) {
+					if selfLoad(b) {
+						appends[dk] = append(appends[dk], st)
+						break
+					}
+				}
+			})
+			for dk, ts := range trims {
+				if len(appends[dk]) == 0 {
+					continue
+				}
+				trimCount[pk]++
+				appBlocks := map[*ssa.BasicBlock]bool{}
+				for _, a := range appends[dk] {
+					appBlocks[a.Block()] = true
+				}
+				for _, t := range ts {
+					dst := t.st.Addr.(*ssa.FieldAddr)
+					key := fmt.Sprintf("%s:trim(%s)", funcKey(fn), fieldKeyAddr(dst))
+					var bad []string
+					// the cut is usually conditional (`if len(h) > max`): passing the test counts as passing the cut
+					avoid := map[*ssa.BasicBlock]bool{t.st.Block(): true}
+					var guard *ssa.BasicBlock
+					if tb := t.st.Block(); len(tb.Preds) == 1 && ifCond(tb.Preds[0]) != nil {
+						guard = tb.Preds[0]
+						avoid[guard] = true
+					}
+					// `for len(h) > max { h = h[1:] }`: the cut jumps straight back to its own test
+					repeats := false
+					if guard != nil {
+						for _, sc := range t.st.Block().Succs {
+							if sc == guard {
+								repeats = true
+							}
+						}
+					}
+					if repeats {
+						o.ok("E4", key, p.instrPos(t.st), "the constant-step cut repeats (it is the body of a loop on its own test) until the limit holds")
+						continue
+					}
+					for _, a := range appends[dk] {
+						if guard != nil && a.Block() == guard {
+							continue // the test follows the append in the same block
+						}
+						if cycleAvoiding(a.Block(), avoid) {
+							bad = append(bad, fmt.Sprintf("the append at %s can repeat without passing the cut at %s, which removes only %d element(s)", p.instrPos(a), p.instrPos(t.st), t.c))
+						}
+					}
+					if len(bad) > 0 {
+						o.bad("E4", key, p.instrPos(t.st), strings.Join(dedupe(bad), "; ")+": the history grows past its limit by the difference on every call and is never cut back")
+					} else {
+						o.ok("E4", key, p.instrPos(t.st), fmt.Sprintf("every append to the field is followed by the cut of %d before it can repeat", t.c))
+					}
+				}
+			}
+		}
 		// ---- K3
 		for _, l := range findRangeLoops(fn) {
 			loopCount[pk]++
@@ -118,7 +388,40 @@ func runEngineLint(p *Prog, o *obls) {
 	for _, pk := range ps {
 		o.trivial("J3", pk+":inspected", "-", fmt.Sprintf("%d remainder operation(s) inspected", remCount[pk]))
 		o.trivial("K3", pk+":inspected", "-", fmt.Sprintf("%d range/counted loop(s) over slices inspected", loopCount[pk]))
+		o.trivial("J4", pk+":inspected", "-", fmt.Sprintf("%d same-width unsigned→signed conversion(s) of at most 32 bits inspected", convCount[pk]))
+		o.trivial("K4", pk+":inspected", "-", fmt.Sprintf("%d append(s) stored to slice fields inspected", appCount[pk]))
+		o.trivial("E4", pk+":inspected", "-", fmt.Sprintf("%d constant-step cut(s) of appended slice fields inspected", trimCount[pk]))
 	}
+}
+
+// appendBases: the first arguments of the append calls v is built from (through φ, re-slices and nested appends).
+func appendBases(p *Prog, v ssa.Value, d int, seen map[ssa.Value]bool) []ssa.Value {
+	v = p.origin(v)
+	if v == nil || seen[v] || d > 8 {
+		return nil
+	}
+	seen[v] = true
+	switch x := v.(type) {
+	case *ssa.Call:
+		if builtinName(&x.Call) == "append" {
+			if inner := appendBases(p, x.Call.Args[0], d+1, seen); len(inner) > 0 {
+				return inner
+			}
+			return []ssa.Value{x.Call.Args[0]}
+		}
+	case *ssa.Slice:
+		if x.Max != nil && isConstInt(x.Max, 0) {
+			return nil // s[:0:0] has no capacity: appending to it allocates (the clone idiom)
+		}
+		return appendBases(p, x.X, d+1, seen)
+	case *ssa.Phi:
+		var out []ssa.Value
+		for _, e := range x.Edges {
+			out = append(out, appendBases(p, e, d+1, seen)...)
+		}
+		return out
+	}
+	return nil
 }
 
 // reachesEmptyResliceOf: v is (through φ and appends) xs[:0] of the slice `base`.
